@@ -535,12 +535,13 @@ func (w *World) TryDeploy(key string, a *Artifact, data any, signers []Signer) (
 
 // Probe is the result of a what-if execution.
 type Probe struct {
-	State  vmstate.State
-	Fault  string
-	Stack  []stackitem.Item
-	Events []state.NotificationEvent
-	Ops    []StorageOp // effective storage changes (all contracts incl. natives); no-op writes are filtered out
-	GAS    int64
+	RawIters [][]stackitem.Item // per stack position: the values of the iterator that was there (nil otherwise)
+	State    vmstate.State
+	Fault    string
+	Stack    []stackitem.Item
+	Events   []state.NotificationEvent
+	Ops      []StorageOp // effective storage changes (all contracts incl. natives); no-op writes are filtered out
+	GAS      int64
 }
 
 // StorageOp is one effective storage change of a what-if execution.
@@ -581,7 +582,7 @@ func (w *World) WhatIf(script []byte, signers []Signer, dtMillis uint64) *Probe 
 	p.State = ic.VM.State()
 	p.GAS = ic.VM.GasConsumed()
 	if p.State == vmstate.Halt {
-		p.Stack = drainStack(ic)
+		p.Stack, p.RawIters = drainStackRaw(ic)
 		p.Events = ic.Notifications
 		for _, op := range storage.BatchToOperations(ic.DAO.GetBatch()) {
 			if len(op.Key) < 4 {
@@ -607,25 +608,38 @@ func (w *World) WhatIf(script []byte, signers []Signer, dtMillis uint64) *Probe 
 }
 
 func drainStack(ic *interop.Context) []stackitem.Item {
+	items, _ := drainStackRaw(ic)
+	return items
+}
+
+// drainStackRaw returns the stack bottom-up with iterators replaced by arrays
+// of their values, and for every position that held an iterator its values.
+func drainStackRaw(ic *interop.Context) ([]stackitem.Item, [][]stackitem.Item) {
 	est := ic.VM.Estack()
 	items := make([]stackitem.Item, 0, est.Len())
+	var iters [][]stackitem.Item
 	for est.Len() > 0 {
 		it := est.Pop().Item()
+		var vals []stackitem.Item
 		if ii, ok := it.Value().(*istorage.Iterator); ok {
-			var arr []stackitem.Item
+			vals = []stackitem.Item{}
 			for ii.Next() {
-				arr = append(arr, ii.Value())
+				vals = append(vals, ii.Value())
 			}
-			it = stackitem.NewArray(arr)
+			it = stackitem.NewArray(vals)
 		}
 		items = append(items, it)
+		iters = append(iters, vals)
 	}
 	// bottom .. top → reverse into push order
 	for i, j := 0, len(items)-1; i < j; i, j = i+1, j-1 {
 		items[i], items[j] = items[j], items[i]
+		iters[i], iters[j] = iters[j], iters[i]
 	}
-	return items
+	return items, iters
 }
+
+func (w *World) whatIfRaw(script []byte) *Probe { return w.WhatIf(script, nil, 0) }
 
 // Read invokes a (read-only) method in a test VM and returns the single result.
 // Iterators are drained into arrays. err != nil means FAULT.
